@@ -188,6 +188,66 @@ fn library_case(ctx: &mut Ctx, idx: usize, kind: &'static str, n: usize) {
     }
 }
 
+/// raw context bytes through `with_bytes` / `consume_bytes`: hashed verbatim, every position bound for every value
+fn bytes_case(ctx: &mut Ctx, idx: usize) {
+    if !ctx.begin_case(idx, "bind-raw-bytes") {
+        return;
+    }
+    let edge: [u8; 9] = [0x00, 0x09, 0x0a, 0x0b, 0x0c, 0x0d, 0x20, 0x7f, 0xff];
+    let n = [0usize, 1, 2, 31, 32, 33, 64][ctx.prng.gen_range(0..7)];
+    let mut data: Vec<u8> = (0..n).map(|_| ctx.prng.gen()).collect();
+    // edge values at the ends (and sometimes everywhere)
+    for i in 0..n {
+        if i == 0 || i + 1 == n || ctx.prng.gen_range(0..6) == 0 {
+            data[i] = edge[ctx.prng.gen_range(0..edge.len())];
+        }
+    }
+    let hash = |d: &[u8], chained: bool| -> Option<(Vec<u8>, Scalar)> {
+        let _ = verif_hooks::drain_challenges();
+        let c = if chained { ChallengeBuilder::new().with(&Scalar::one()).with_bytes(d).finish() } else { let mut b = ChallengeBuilder::new(); b.consume(&Scalar::one()); b.consume_bytes(d); b.finish() };
+        let r = verif_hooks::drain_challenges();
+        if r.len() != 1 { return None; }
+        Some((r[0].0.clone(), c.to_scalar()))
+    };
+    let (b1, c1) = match hash(&data, true) { Some(x) => x, None => { ctx.broken("no challenge recorded"); return; } };
+    let (b2, c2) = match hash(&data, false) { Some(x) => x, None => return };
+    let mut expected = Scalar::one().to_bytes().to_vec();
+    expected.extend(&data);
+    ctx.evals += 1;
+    if b1 != expected || b2 != expected || c1 != c2 || sha3_challenge(&expected) != c1 {
+        ctx.count("raw-bytes:MISMATCH");
+        ctx.violation("with_bytes / consume_bytes do not hash the given bytes verbatim", json!({"class": "raw-bytes-not-verbatim", "bytes": hex::encode(&data), "hashed_with_bytes": hex::encode(&b1), "hashed_consume_bytes": hex::encode(&b2)}));
+    } else {
+        ctx.count("raw-bytes:match");
+    }
+    for i in 0..n {
+        for &v in edge.iter() {
+            if v == data[i] { continue; }
+            let mut d2 = data.clone();
+            d2[i] = v;
+            ctx.evals += 1;
+            if let Some((_, c3)) = hash(&d2, true) {
+                if c3 == c1 {
+                    ctx.count("raw-byte-replaced:CHALLENGE-UNCHANGED");
+                    ctx.violation(&format!("replacing context byte {} ({:#04x} -> {:#04x}) leaves the challenge unchanged", i, data[i], v), json!({"class": "context-byte-not-bound", "position": i, "bytes": hex::encode(&data), "replaced": hex::encode(&d2)}));
+                } else {
+                    ctx.count("raw-byte-replaced:challenge-changed");
+                }
+            }
+        }
+    }
+    // extension by one edge byte
+    for &v in edge.iter() {
+        let mut d2 = data.clone();
+        d2.push(v);
+        if let Some((_, c3)) = hash(&d2, true) {
+            if c3 == c1 {
+                ctx.violation(&format!("appending byte {:#04x} to the context leaves the challenge unchanged", v), json!({"class": "context-extension-not-bound", "bytes": hex::encode(&data)}));
+            }
+        }
+    }
+}
+
 /// zkAbacus level: every non-response field of an establish proof, every public value, every context byte
 fn establish_case(ctx: &mut Ctx, idx: usize, w: &World, w2: &World) {
     if !ctx.begin_case(idx, "bind-establish") {
@@ -272,6 +332,10 @@ pub fn run(ctx: &mut Ctx) {
                 library_case(ctx, idx, k, n);
             }
         }
+    }
+    for _ in 0..(if ctx.thorough() { 200 } else { 48 }) {
+        idx += 1;
+        bytes_case(ctx, idx);
     }
     let w = match world(ctx, false) { Some(w) => w, None => return };
     let w2 = match world(ctx, false) { Some(w) => w, None => return };
